@@ -158,6 +158,37 @@ Theorem C32_last_point : forall text_mode num_attr fg v g st g',
 Proof. exact paint_lp_spec. Qed.
 Print Assumptions C32_last_point.
 
+(* histories: for EVERY list of PAINT / PAINT STEP statements run from any bitmap and any last point: a pixel
+   that differs at the end was painted by some statement st of the history, lies in the region - of the picture
+   at that moment - containing st's start point (resolved from the last referenced point at that moment), and
+   holds st's fill attribute *)
+Theorem C32_history_regions : forall text_mode num_attr fg v l g g',
+  covers (fst g) v -> paint_hist text_mode num_attr fg v g l = Ok g' ->
+  forall px py, pix (fst g') px py <> pix (fst g) px py ->
+  exists l1 st l2 gk,
+    l = l1 ++ st :: l2 /\ paint_hist text_mode num_attr fg v g l1 = Ok gk /\
+    region (fst gk) v (border_of num_attr fg (s_c st) (s_b st))
+           (fst (stmt_seed (snd gk) st)) (snd (stmt_seed (snd gk) st)) px py /\
+    pix (fst g') px py = fill_of num_attr fg (s_c st).
+Proof. intros text_mode num_attr fg v. exact (paint_hist_regions text_mode num_attr fg v). Qed.
+Print Assumptions C32_history_regions.
+
+(* ... the viewport stays covered, nothing outside the viewport ever changes, the last referenced point is the
+   initial one or inside the viewport, and no history runs out of fuel *)
+Theorem C32_history_sound : forall text_mode num_attr fg v l g g',
+  covers (fst g) v -> paint_hist text_mode num_attr fg v g l = Ok g' ->
+  covers (fst g') v /\
+  (forall px py, pix (fst g') px py <> pix (fst g) px py ->
+     in_view v px py = true /\ exists st, In st l /\ pix (fst g') px py = fill_of num_attr fg (s_c st)) /\
+  (snd g' = snd g \/ in_view v (fst (snd g')) (snd (snd g')) = true).
+Proof. intros text_mode num_attr fg v. exact (paint_hist_sound text_mode num_attr fg v). Qed.
+Print Assumptions C32_history_sound.
+
+Theorem C32_history_terminates : forall text_mode num_attr fg v l g,
+  covers (fst g) v -> paint_hist text_mode num_attr fg v g l <> OutOfFuel.
+Proof. intros text_mode num_attr fg v. exact (paint_hist_never_out_of_fuel text_mode num_attr fg v). Qed.
+Print Assumptions C32_history_terminates.
+
 (* non-vacuity: a 5x3 viewport inside a 7x5 bitmap, a wall of attribute 3, seed (0,0), fill 2.
    The hypotheses of the theorems hold (covers; no region cell has the fill attribute), the region is not
    empty, PAINT changes the picture, and the cell behind the diagonal wall stays. *)
@@ -203,3 +234,10 @@ Example C32_last_point_border_seed :
   paint_lp false 4 3 C32_ex_v (C32_ex_m, (4, 2)) (mkStmt false 2 0 (Some 2) (Some 3)) = Ok (C32_ex_m, (2, 0)).
 Proof. vm_compute. reflexivity. Qed.
 
+
+(* non-vacuity for histories: border seed (no-op, moves the last point), then STEP into the open cell next to it *)
+Example C32_history_nonvacuous :
+  paint_hist false 4 3 C32_ex_v (C32_ex_m, (4, 2))
+             [mkStmt false 2 0 (Some 2) (Some 3); mkStmt true (-1) 0 (Some 2) (Some 3)] =
+    Ok (mkBitmap (-1) (-1) [[1;1;1;1;1;1;1];[1;2;2;3;0;0;1];[1;2;3;0;0;3;1];[1;3;0;0;3;0;1];[1;1;1;1;1;1;1]], (1, 0)).
+Proof. vm_compute. reflexivity. Qed.
